@@ -277,6 +277,11 @@ Definition run_repeat (args : list bytes) : bytes :=
   | _ => bs "badargs"
   end.
 
+(* the same plan through one provider object cleared and refilled per step, and through a new
+   provider per step: the model has no provider objects, both halves are the verdicts of the pairs *)
+Definition run_refill (args : list bytes) : bytes :=
+  let r := run_repeat args in r ++ [124] ++ r.
+
 (* specification side, decided on the implementation's verdicts alone: two entries of the plan
    that name the same auth events (same order) and the same event carry the same verdict *)
 Fixpoint same_verdicts (sts : list json) (vs : list bytes) : bool :=
@@ -382,6 +387,7 @@ Definition ops_C09 : list (bytes * (list bytes -> bytes)) :=
     (bs "C09.add_auth_events", run_add_auth_events);
     (bs "C09.sequence", run_sequence);
     (bs "C09.repeat", run_repeat);
+    (bs "C09.refill", run_refill);
     (bs "C09.order", run_order);
     (bs "C09.prop.order_of_duplicates", prop_order_of_duplicates);
     (bs "C09.prop.halves_equal", prop_halves_equal);
